@@ -23,6 +23,7 @@ import (
 	"context"
 	"errors"
 	"fmt"
+	"os"
 	"sort"
 	"strconv"
 	"strings"
@@ -1144,8 +1145,26 @@ func c06Stats(out *vh.Out, in *c06Info) {
 	for _, call := range in.rec.calls {
 		if call.cmd >= 1 && call.cmd <= len(c.rcpts) && strings.HasPrefix(call.stage, "r") && call.stage != fmt.Sprintf("r%d", c.rcpts[call.cmd-1].id) {
 			replayed = true
+			if call.eff == "r" {
+				out.Stat("replay.reject-for-other-recipient")
+			}
 		}
 		out.Stat("verdict." + call.eff)
+	}
+	// a repeated request answered from memory: an RCPT command refused without any call returning a reject in it
+	for k, ref := range in.rcptRef {
+		if !ref {
+			continue
+		}
+		called := false
+		for _, call := range in.rec.calls {
+			if call.cmd == k+1 && call.eff == "r" {
+				called = true
+			}
+		}
+		if !called {
+			out.Stat("repeat.remembered-reject")
+		}
 	}
 	if replayed {
 		out.Stat("rcpt.replayed-to-new-state")
@@ -1389,7 +1408,9 @@ func c06Gen(r *vh.Rng, big bool) *c06Case {
 }
 
 func TestVerifC06Pipeline(t *testing.T) {
-	out := vh.Open("c06_pipeline")
+	// VERIF_C06_TAG names a second, independent run (the check uses it for the run under the race detector)
+	tag := os.Getenv("VERIF_C06_TAG")
+	out := vh.Open("c06_pipeline" + tag)
 	defer out.Close()
 	if ops := vh.Replay(); ops != nil {
 		for _, op := range ops {
@@ -1404,7 +1425,7 @@ func TestVerifC06Pipeline(t *testing.T) {
 		}
 		return
 	}
-	r := vh.NewRng(vh.Seed() + 606)
+	r := vh.NewRng(vh.Seed() + 606 + uint64(len(tag))*7919)
 	n := vh.N(400)
 	for i := 0; i < n; i++ {
 		c := c06Gen(r, vh.Thorough())
